@@ -37,6 +37,7 @@ func (v *VC) bindCallResult(i *ssa.Call, res []string) {
 }
 
 func (v *VC) freshResults(sig *types.Signature, g string) []string {
+	clk := v.clock(v.curHeap)
 	var out []string
 	for k := 0; k < sig.Results().Len(); k++ {
 		nm := v.freshName("r")
@@ -44,6 +45,7 @@ func (v *VC) freshResults(sig *types.Signature, g string) []string {
 		v.emit("(declare-const %s %s)", nm, v.sortOf(t))
 		v.assume("true", v.rangeFact(t, nm))
 		v.assume("true", v.extFact(t, nm))
+		v.assume("true", v.validFactC(t, nm, clk))
 		out = append(out, nm)
 	}
 	return out
@@ -178,8 +180,7 @@ func (v *VC) genAppend(i *ssa.Call, g string, heap *Heap) {
 	a, b := v.val(i.Call.Args[0]), v.val(i.Call.Args[1])
 	et := i.Type().Underlying().(*types.Slice).Elem()
 	res := v.declare(i)
-	v.escID++
-	freshBase := fmt.Sprintf("(obj %d)", escBase+v.escID)
+	freshBase := fmt.Sprintf("(obj %s)", v.newAlloc(false, heap))
 	blen := "(s-len " + b + ")"
 	if _, isStr := i.Call.Args[1].Type().Underlying().(*types.Basic); isStr {
 		blen = "(strlen " + b + ")"
@@ -195,16 +196,22 @@ func (v *VC) genAppend(i *ssa.Call, g string, heap *Heap) {
 		v.unsupp("append(bytes, string...)")
 		return
 	}
-	v.leafHeaps(et, func(key, srt string, path func(string) string) {
+	v.leafHeaps(et, func(key, srt string, paths []func(string) string) {
 		old := v.heapGet(heap, key, srt)
 		v.heapVer++
 		nm := fmt.Sprintf("H%d_%s", v.heapVer, sanitize(key))
-		v.emit("(declare-const %s (Array Ptr %s))", nm, srt)
-		el := func(s, k string) string { return path(fmt.Sprintf("(selem %s %s)", s, k)) }
-		// old elements keep their value in the result
-		v.assume(g, fmt.Sprintf("(forall ((k Int)) (! (=> (and (<= 0 k) (< k (s-len %s))) (= (select %s %s) (select %s %s))) :pattern ((select %s %s))))", a, nm, el(res, "k"), old, el(a, "k"), nm, el(res, "k")))
-		// appended elements
-		v.assume(g, fmt.Sprintf("(forall ((k Int)) (! (=> (and (<= 0 k) (< k %s)) (= (select %s %s) (select %s %s))) :pattern ((select %s %s))))", blen, nm, el(res, fmt.Sprintf("(+ (s-len %s) k)", a)), old, el(b, "k"), old, el(b, "k")))
+		v.declHeap(nm, key)
+		for _, path := range paths {
+			el := func(s, k string) string { return path(fmt.Sprintf("(selem %s %s)", s, k)) }
+			// old elements keep their value in the result
+			v.assume(g, fmt.Sprintf("(forall ((k Int)) (! (=> (and (<= 0 k) (< k (s-len %s))) (= (select %s %s) (select %s %s))) :pattern ((select %s %s))))", a, nm, el(res, "k"), old, el(a, "k"), nm, el(res, "k")))
+			// appended elements
+			v.assume(g, fmt.Sprintf("(forall ((k Int)) (! (=> (and (<= (s-len %s) k) (< k %s)) (= (select %s %s) (select %s %s))) :pattern ((select %s %s))))", a, newLen, nm, el(res, "k"), old, el(b, fmt.Sprintf("(- k (s-len %s))", a)), nm, el(res, "k")))
+			// explicit instances for append(s, x1..xn) (variadic literal of known small length)
+			for j := 0; j < varargLen(i.Call.Args[1]); j++ {
+				v.assume(g, fmt.Sprintf("(= (select %s %s) (select %s %s))", nm, el(res, fmt.Sprintf("(+ (s-len %s) %d)", a, j)), old, path(fmt.Sprintf("(elm (s-base %s) %d)", b, j))))
+			}
+		}
 		// frame: cells outside the written window keep their value
 		v.assume(g, fmt.Sprintf("(forall ((p Ptr)) (! (=> (not (and (= (root p) (root (s-base %s))) (in-window p %s (s-len %s) %s))) (= (select %s p) (select %s p))) :pattern ((select %s p))))", res, res, a, newLen, nm, old, nm))
 		heap.m[key] = nm
@@ -212,9 +219,32 @@ func (v *VC) genAppend(i *ssa.Call, g string, heap *Heap) {
 	v.features["in-window"] = true
 }
 
-// leafHeaps enumerates the heap arrays that hold an element of type et, with the address path
-// from the element's address to the leaf cell.
-func (v *VC) leafHeaps(et types.Type, f func(key, srt string, path func(string) string)) {
+// varargLen: length of the backing array when x is arr[:] of a fresh [n]T (at most 4), else 0.
+func varargLen(x ssa.Value) int {
+	sl, ok := x.(*ssa.Slice)
+	if !ok || sl.Low != nil || sl.High != nil {
+		return 0
+	}
+	al, ok := sl.X.(*ssa.Alloc)
+	if !ok {
+		return 0
+	}
+	arr, ok := al.Type().Underlying().(*types.Pointer).Elem().Underlying().(*types.Array)
+	if !ok || arr.Len() > 4 {
+		return 0
+	}
+	return int(arr.Len())
+}
+
+// leafHeaps enumerates the heap arrays that hold parts of an element of type et; for each array
+// all address paths from the element's address to a leaf cell stored in that array.
+func (v *VC) leafHeaps(et types.Type, f func(key, srt string, paths []func(string) string)) {
+	type ent struct {
+		key, srt string
+		paths    []func(string) string
+	}
+	var order []string
+	m := map[string]*ent{}
 	var rec func(t types.Type, path func(string) string)
 	rec = func(t types.Type, path func(string) string) {
 		if st, ok := t.Underlying().(*types.Struct); ok {
@@ -225,9 +255,16 @@ func (v *VC) leafHeaps(et types.Type, f func(key, srt string, path func(string) 
 			return
 		}
 		key, srt := v.heapKey(t)
-		f(key, srt, path)
+		if m[key] == nil {
+			m[key] = &ent{key: key, srt: srt}
+			order = append(order, key)
+		}
+		m[key].paths = append(m[key].paths, path)
 	}
 	rec(et, func(p string) string { return p })
+	for _, k := range order {
+		f(m[k].key, m[k].srt, m[k].paths)
+	}
 }
 
 func (v *VC) genCopy(i *ssa.Call, g string, heap *Heap) {
@@ -243,14 +280,16 @@ func (v *VC) genCopy(i *ssa.Call, g string, heap *Heap) {
 	if !ok {
 		return
 	}
-	v.leafHeaps(sl.Elem(), func(key, srt string, path func(string) string) {
+	v.leafHeaps(sl.Elem(), func(key, srt string, paths []func(string) string) {
 		old := v.heapGet(heap, key, srt)
 		v.heapVer++
 		nm := fmt.Sprintf("H%d_%s", v.heapVer, sanitize(key))
-		v.emit("(declare-const %s (Array Ptr %s))", nm, srt)
-		el := func(s, k string) string { return path(fmt.Sprintf("(selem %s %s)", s, k)) }
-		if !srcIsStr {
-			v.assume(g, fmt.Sprintf("(forall ((k Int)) (! (=> (and (<= 0 k) (< k %s)) (= (select %s %s) (select %s %s))) :pattern ((select %s %s))))", n, nm, el(dst, "k"), old, el(src, "k"), nm, el(dst, "k")))
+		v.declHeap(nm, key)
+		for _, path := range paths {
+			el := func(s, k string) string { return path(fmt.Sprintf("(selem %s %s)", s, k)) }
+			if !srcIsStr {
+				v.assume(g, fmt.Sprintf("(forall ((k Int)) (! (=> (and (<= 0 k) (< k %s)) (= (select %s %s) (select %s %s))) :pattern ((select %s %s))))", n, nm, el(dst, "k"), old, el(src, "k"), nm, el(dst, "k")))
+			}
 		}
 		v.assume(g, fmt.Sprintf("(forall ((p Ptr)) (! (=> (not (and (= (root p) (root (s-base %s))) (in-window p %s 0 %s))) (= (select %s p) (select %s p))) :pattern ((select %s p))))", dst, dst, n, nm, old, nm))
 		heap.m[key] = nm
